@@ -1,5 +1,6 @@
 """C08 — all parsing entry points agree with one another."""
 from tools import vlib
+from tools.harness import history
 from tools.harness import gen, corr, pcommon, build, observe, dump
 
 PROP = "C08"
@@ -291,6 +292,8 @@ def settings_sequence(ctx):
 
 
 def correspond(ctx):
+    # entry points are independent of what the same grammar object was asked before (tools/harness/history.py)
+    history.run(ctx, 'C08', list(history.MODES), 250 if not ctx.thorough else 2500, mode_switches=False, seed_salt=8)
     corr.ensure_driver()
     rng = ctx.rng
     n = 400 if not ctx.thorough else 3000
@@ -334,6 +337,7 @@ def correspond(ctx):
 
 
 def search(ctx, reasons):
+    history.run(ctx, 'C08', list(history.MODES), 400 if not ctx.thorough else 4000, mode_switches=False, seed_salt=108)
     import random, time
     rng = random.Random(ctx.seed + 808)
     t0 = time.time()
@@ -361,6 +365,8 @@ def _tuplify(x):
 
 def replay(ctx, obj):
     r = obj["replay"]
+    if r.get("kind") == "history":
+        return history.replay(r)
     if r.get("kind") == "settings-seq":
         c2 = vlib.Ctx(PROP, "quick", 0)
         c2.known = {}
